@@ -1,8 +1,22 @@
 import NetaddrVerif.Model.Proto
-/-! Driver ops of property C18 (stub: filled in by the property's model). -/
+import NetaddrVerif.Model.Classify
+/-! Driver ops of property C18.
+    `classify <x>`  x = `A:ver:val` | `N:ver:val:plen` | `R:ver:lo:hi`
+    → six flags `unicast multicast loopback private link_local reserved` as `T`/`F` letters -/
 namespace NV.Driver.C18
-open NV NV.Proto
+open NV NV.Proto NV.Contains NV.Classify
 
-def handle (_op : String) (_args : List String) : Option String := none
+def parseObj (tok : String) : Option Obj :=
+  if tok.startsWith "A:" then (parseAddr tok).map .addr
+  else if tok.startsWith "N:" then (parseNet tok).map .net
+  else if tok.startsWith "R:" then (parseRng tok).map .rng
+  else none
+
+def handle (op : String) (args : List String) : Option String :=
+  match op, args with
+  | "classify", [x] => do
+    let x ← parseObj x
+    pure ("".intercalate ([isUnicast x, isMulticast x, isLoopback x, isPrivate x, isLinkLocal x, isReserved x].map showBool))
+  | _, _ => none
 
 end NV.Driver.C18
